@@ -35,6 +35,14 @@ REG = {
         ],
         "trusted_base": ["modelled, not verified: bufio.Scanner, io.ReadFull, io.CopyN, net.Pipe as the in-memory connection whose reads return exactly the scripted pieces"],
     },
+    "C07": {
+        "assumptions": [
+            "the configured file root and accounts directory are absolute, clean, ASCII paths and no symbolic link below them leads out (links are created only by the make-alias request, whose target is itself inside the root)",
+            "lexical containment: the theorems are about path strings handed to the file system; the OS rejects components with NUL or longer than NAME_MAX (observed, not modelled)",
+            "filepath.Join / Clean are modelled on '/'-separated components (validated against path/filepath on hostile strings every run); the Mac Roman table is compared with x/text every run",
+        ],
+        "trusted_base": ["modelled, not verified: path/filepath, charmap.Macintosh, the kernel's path resolution"],
+    },
     "C13": {
         "assumptions": [
             "notifications are applied by the client in the order the server queued them (the statement quantifies histories, not schedules); the harness delivers the outbox sequentially through the real sendTransaction and uses a keep-alive round trip as barrier",
